@@ -1,6 +1,668 @@
-//! `vh instancing`: see /verif/docs/MODULE_CONTRACT.md
+//! `vh instancing`: measure a compiled font at given normalized locations (C03 / C04).
+//!
+//! One JSON request per stdin line (or per line of the file given as first argument), one JSON result per
+//! line on stdout.  Nothing is judged here: the module draws, reads and evaluates binary tables and reports
+//! numbers; the acceptance relation lives in spec/Instancing.tla and is evaluated by TLC on these records.
+//!
+//! Request:
+//!   {"tag": "...", "font": "<path.ttf>", "scale": 1024,
+//!    "locs": [[F2Dot14 bits per fvar axis], ...]      normalized locations (generated cases), or
+//!    "user_locs": [[user coordinate per fvar axis], ...] normalized through the font's own fvar + avar,
+//!    "glyphs": ["a", ...]              glyph names to measure ([] = all),
+//!    "glyph_locs": {"a": [0, 2]}       location indices per glyph (missing = every location),
+//!    "sections": ["outline", "advance", "mvar", "defaults"]}
+//!
+//! Numbers that may be fractional are reported as integer intervals [lo, hi] = [floor(x*scale), ceil(x*scale)]
+//! so that the consumer can compare conservatively with integer arithmetic only.
+//!
+//! Evaluators used:
+//!   * outlines: skrifa, unhinted, unscaled, PathStyle::HarfBuzz (f32 arithmetic, deltas are NOT rounded;
+//!     the FreeType path style rounds deltas of unscaled outlines to integers);
+//!   * gvar tuple headers, phantom point deltas and component offset deltas: read-fonts raw tuple data,
+//!     scalars computed here in f64 from the tents;
+//!   * HVAR / VVAR / MVAR: region list and delta sets read raw (read-fonts), evaluated here in f64;
+//!     DeltaSetIndexMap lookup by read-fonts; plus skrifa's glyph_metrics / metrics as a second evaluator.
 
-pub fn run(_args: &[String]) -> i32 {
-    eprintln!("vh instancing: not implemented yet");
-    2
+use std::collections::HashMap;
+use std::io::{BufRead, Write};
+
+use serde::Deserialize;
+use serde_json::{Map, Value, json};
+use skrifa::{
+    GlyphId, MetadataProvider,
+    instance::{LocationRef, Size},
+    outline::{DrawSettings, OutlinePen, pen::PathStyle},
+    raw::{
+        FontRef, TableProvider,
+        tables::{
+            glyf::{Anchor, Glyph},
+            variations::{DeltaSetIndexMap, ItemVariationStore},
+        },
+        types::{F2Dot14, Tag},
+    },
+};
+
+use crate::fontutil;
+
+#[derive(Deserialize, Default)]
+#[serde(default)]
+struct Req {
+    tag: String,
+    font: String,
+    scale: i64,
+    locs: Vec<Vec<i32>>,
+    user_locs: Vec<Vec<f64>>,
+    glyphs: Vec<String>,
+    glyph_locs: HashMap<String, Vec<usize>>,
+    sections: Vec<String>,
+}
+
+struct Sc(f64);
+
+impl Sc {
+    /// [floor(x*scale), ceil(x*scale)]
+    fn iv(&self, x: f64) -> Value {
+        let y = x * self.0;
+        json!([y.floor() as i64, y.ceil() as i64])
+    }
+}
+
+const OP_MOVE: i64 = 0;
+const OP_LINE: i64 = 1;
+const OP_QUAD: i64 = 2;
+const OP_CLOSE: i64 = 3;
+const OP_CUBIC: i64 = 4;
+
+struct CmdPen<'a> {
+    sc: &'a Sc,
+    cmds: Vec<Value>,
+}
+
+impl CmdPen<'_> {
+    fn push(&mut self, op: i64, xs: &[f32]) {
+        let mut v = vec![json!(op)];
+        for x in xs {
+            let y = *x as f64 * self.sc.0;
+            v.push(json!(y.floor() as i64));
+            v.push(json!(y.ceil() as i64));
+        }
+        self.cmds.push(Value::Array(v));
+    }
+}
+
+impl OutlinePen for CmdPen<'_> {
+    fn move_to(&mut self, x: f32, y: f32) {
+        self.push(OP_MOVE, &[x, y]);
+    }
+    fn line_to(&mut self, x: f32, y: f32) {
+        self.push(OP_LINE, &[x, y]);
+    }
+    fn quad_to(&mut self, cx0: f32, cy0: f32, x: f32, y: f32) {
+        self.push(OP_QUAD, &[cx0, cy0, x, y]);
+    }
+    fn curve_to(&mut self, cx0: f32, cy0: f32, cx1: f32, cy1: f32, x: f32, y: f32) {
+        self.push(OP_CUBIC, &[cx0, cy0, cx1, cy1, x, y]);
+    }
+    fn close(&mut self) {
+        self.push(OP_CLOSE, &[]);
+    }
+}
+
+/// OpenType tent scalar for one axis; all values F2Dot14 bits.
+fn axis_scalar(s: i32, p: i32, e: i32, v: i32) -> f64 {
+    if s > p || p > e {
+        return 1.0;
+    }
+    if s < 0 && e > 0 && p != 0 {
+        return 1.0;
+    }
+    if p == 0 {
+        return 1.0;
+    }
+    if v < s || v > e {
+        return 0.0;
+    }
+    if v == p {
+        return 1.0;
+    }
+    if v < p {
+        (v - s) as f64 / (p - s) as f64
+    } else {
+        (e - v) as f64 / (e - p) as f64
+    }
+}
+
+fn region_scalar(tents: &[[i32; 3]], coords: &[i32]) -> f64 {
+    let mut s = 1.0;
+    for (i, t) in tents.iter().enumerate() {
+        let v = coords.get(i).copied().unwrap_or(0);
+        s *= axis_scalar(t[0], t[1], t[2], v);
+        if s == 0.0 {
+            return 0.0;
+        }
+    }
+    s
+}
+
+struct GvarTuple {
+    tents: Vec<[i32; 3]>,
+    dense: bool,
+    /// explicit deltas: position -> (dx, dy)
+    deltas: HashMap<u16, (i32, i32)>,
+}
+
+fn gvar_tuples(font: &FontRef, gid: u32, naxes: usize) -> Result<Vec<GvarTuple>, String> {
+    let Ok(gvar) = font.gvar() else {
+        return Ok(Vec::new());
+    };
+    let Some(data) = gvar
+        .glyph_variation_data(GlyphId::new(gid))
+        .map_err(|e| format!("gvar data of gid {gid}: {e}"))?
+    else {
+        return Ok(Vec::new());
+    };
+    let mut out = Vec::new();
+    for t in data.tuples() {
+        let peak = t.peak();
+        let (is, ie) = (t.intermediate_start(), t.intermediate_end());
+        let mut tents = Vec::new();
+        for a in 0..naxes {
+            let p = peak.get(a).unwrap_or_default().to_bits() as i32;
+            let (s, e) = match (&is, &ie) {
+                (Some(is), Some(ie)) => (
+                    is.get(a).unwrap_or_default().to_bits() as i32,
+                    ie.get(a).unwrap_or_default().to_bits() as i32,
+                ),
+                _ => (p.min(0), p.max(0)),
+            };
+            tents.push([s, p, e]);
+        }
+        let dense = t.has_deltas_for_all_points();
+        let mut deltas = HashMap::new();
+        for d in t.deltas() {
+            deltas.insert(d.position, (d.x_delta, d.y_delta));
+        }
+        out.push(GvarTuple {
+            tents,
+            dense,
+            deltas,
+        });
+    }
+    Ok(out)
+}
+
+/// sum over tuples of scalar * explicit delta of point `pos` (0 if the tuple does not mention the point:
+/// exact for phantom points and component offsets, which are never inferred)
+fn gvar_point_delta(tuples: &[GvarTuple], pos: u16, coords: &[i32]) -> (f64, f64) {
+    let (mut x, mut y) = (0.0, 0.0);
+    for t in tuples {
+        let s = region_scalar(&t.tents, coords);
+        if s == 0.0 {
+            continue;
+        }
+        if let Some((dx, dy)) = t.deltas.get(&pos) {
+            x += s * *dx as f64;
+            y += s * *dy as f64;
+        }
+    }
+    (x, y)
+}
+
+/// own evaluation of one delta set of an ItemVariationStore at `coords` (F2Dot14 bits)
+fn ivs_delta(store: &ItemVariationStore, outer: u16, inner: u16, coords: &[i32]) -> Result<f64, String> {
+    let Some(data) = store.item_variation_data().get(outer as usize) else {
+        return Ok(0.0);
+    };
+    let data = data.map_err(|e| format!("item variation data {outer}: {e}"))?;
+    if inner >= data.item_count() {
+        return Ok(0.0);
+    }
+    let regions = store
+        .variation_region_list()
+        .map_err(|e| format!("region list: {e}"))?
+        .variation_regions();
+    let idx = data.region_indexes();
+    let mut acc = 0.0;
+    for (i, d) in data.delta_set(inner).enumerate() {
+        let Some(ri) = idx.get(i) else {
+            return Err("delta set longer than region index list".into());
+        };
+        let region = regions
+            .get(ri.get() as usize)
+            .map_err(|e| format!("region {}: {e}", ri.get()))?;
+        let tents: Vec<[i32; 3]> = region
+            .region_axes()
+            .iter()
+            .map(|a| {
+                [
+                    a.start_coord().to_bits() as i32,
+                    a.peak_coord().to_bits() as i32,
+                    a.end_coord().to_bits() as i32,
+                ]
+            })
+            .collect();
+        acc += d as f64 * region_scalar(&tents, coords);
+    }
+    Ok(acc)
+}
+
+fn map_index(map: &Option<DeltaSetIndexMap>, gid: u32) -> Result<(u16, u16), String> {
+    match map {
+        Some(m) => m
+            .get(gid)
+            .map(|i| (i.outer, i.inner))
+            .map_err(|e| format!("delta set index map: {e}")),
+        None => Ok((0, gid as u16)),
+    }
+}
+
+/// (tag, table, field) of every MVAR value tag we know a default for
+fn mvar_defaults(font: &FontRef) -> Vec<(&'static str, Option<f64>)> {
+    let os2 = font.os2().ok();
+    let hhea = font.hhea().ok();
+    let vhea = font.vhea().ok();
+    let post = font.post().ok();
+    let o = |f: &dyn Fn(&skrifa::raw::tables::os2::Os2) -> f64| os2.as_ref().map(f);
+    vec![
+        ("hasc", o(&|t| t.s_typo_ascender() as f64)),
+        ("hdsc", o(&|t| t.s_typo_descender() as f64)),
+        ("hlgp", o(&|t| t.s_typo_line_gap() as f64)),
+        ("hcla", o(&|t| t.us_win_ascent() as f64)),
+        ("hcld", o(&|t| t.us_win_descent() as f64)),
+        ("xhgt", os2.as_ref().and_then(|t| t.sx_height()).map(|v| v as f64)),
+        ("cpht", os2.as_ref().and_then(|t| t.s_cap_height()).map(|v| v as f64)),
+        ("sbxs", o(&|t| t.y_subscript_x_size() as f64)),
+        ("sbys", o(&|t| t.y_subscript_y_size() as f64)),
+        ("sbxo", o(&|t| t.y_subscript_x_offset() as f64)),
+        ("sbyo", o(&|t| t.y_subscript_y_offset() as f64)),
+        ("spxs", o(&|t| t.y_superscript_x_size() as f64)),
+        ("spys", o(&|t| t.y_superscript_y_size() as f64)),
+        ("spxo", o(&|t| t.y_superscript_x_offset() as f64)),
+        ("spyo", o(&|t| t.y_superscript_y_offset() as f64)),
+        ("strs", o(&|t| t.y_strikeout_size() as f64)),
+        ("stro", o(&|t| t.y_strikeout_position() as f64)),
+        ("hcrs", hhea.as_ref().map(|t| t.caret_slope_rise() as f64)),
+        ("hcrn", hhea.as_ref().map(|t| t.caret_slope_run() as f64)),
+        ("hcof", hhea.as_ref().map(|t| t.caret_offset() as f64)),
+        ("vasc", vhea.as_ref().map(|t| t.ascender().to_i16() as f64)),
+        ("vdsc", vhea.as_ref().map(|t| t.descender().to_i16() as f64)),
+        ("vlgp", vhea.as_ref().map(|t| t.line_gap().to_i16() as f64)),
+        ("vcrs", vhea.as_ref().map(|t| t.caret_slope_rise() as f64)),
+        ("vcrn", vhea.as_ref().map(|t| t.caret_slope_run() as f64)),
+        ("vcof", vhea.as_ref().map(|t| t.caret_offset() as f64)),
+        ("unds", post.as_ref().map(|t| t.underline_thickness().to_i16() as f64)),
+        ("undo", post.as_ref().map(|t| t.underline_position().to_i16() as f64)),
+    ]
+}
+
+fn measure(req: &Req) -> Result<Value, String> {
+    let data = std::fs::read(&req.font).map_err(|e| format!("cannot read {}: {e}", req.font))?;
+    let font = FontRef::new(&data).map_err(|e| format!("cannot parse font: {e}"))?;
+    let sc = Sc(if req.scale > 0 { req.scale as f64 } else { 1024.0 });
+    let want = |s: &str| req.sections.is_empty() || req.sections.iter().any(|x| x == s);
+    let names = fontutil::glyph_names(&font);
+    let ng = names.len() as u32;
+    let axes: Vec<String> = font.axes().iter().map(|a| a.tag().to_string()).collect();
+    let naxes = axes.len();
+
+    // locations as F2Dot14 bits
+    let mut locs: Vec<Vec<i32>> = req.locs.clone();
+    for u in &req.user_locs {
+        locs.push(
+            fontutil::normalize_user(&font, u)
+                .iter()
+                .map(|c| c.to_bits() as i32)
+                .collect(),
+        );
+    }
+    if locs.is_empty() {
+        locs.push(vec![0; naxes]);
+    }
+    for l in locs.iter_mut() {
+        l.resize(naxes, 0);
+    }
+    let f2: Vec<Vec<F2Dot14>> = locs
+        .iter()
+        .map(|l| l.iter().map(|b| F2Dot14::from_bits(*b as i16)).collect())
+        .collect();
+
+    let mut out = Map::new();
+    out.insert("tag".into(), json!(req.tag));
+    out.insert("ok".into(), json!(true));
+    out.insert("axes".into(), json!(axes));
+    out.insert("locs".into(), json!(locs));
+    out.insert("num_glyphs".into(), json!(ng));
+    out.insert("scale".into(), json!(sc.0 as i64));
+    out.insert(
+        "upem".into(),
+        json!(font.head().map(|h| h.units_per_em()).unwrap_or(0)),
+    );
+    let tables: Vec<String> = font
+        .table_directory
+        .table_records()
+        .iter()
+        .map(|r| r.tag().to_string())
+        .collect();
+    out.insert("tables".into(), json!(tables));
+
+    let gids: Vec<u32> = if req.glyphs.is_empty() {
+        (0..ng).collect()
+    } else {
+        let mut v = Vec::new();
+        for n in &req.glyphs {
+            match names.iter().position(|x| x == n) {
+                Some(g) => v.push(g as u32),
+                None => return Err(format!("glyph {n} is not in the font")),
+            }
+        }
+        v
+    };
+
+    let loca = font.loca(None).ok();
+    let glyf = font.glyf().ok();
+    let hmtx = font.hmtx().ok();
+    let vmtx = font.vmtx().ok();
+    let hvar = font.hvar().ok();
+    let vvar = font.vvar().ok();
+    let hstore = match &hvar {
+        Some(h) => Some(h.item_variation_store().map_err(|e| format!("HVAR store: {e}"))?),
+        None => None,
+    };
+    let hmap = match &hvar {
+        Some(h) => match h.advance_width_mapping() {
+            Some(m) => Some(m.map_err(|e| format!("HVAR map: {e}"))?),
+            None => None,
+        },
+        None => None,
+    };
+    let vstore = match &vvar {
+        Some(h) => Some(h.item_variation_store().map_err(|e| format!("VVAR store: {e}"))?),
+        None => None,
+    };
+    let vmap = match &vvar {
+        Some(h) => match h.advance_height_mapping() {
+            Some(m) => Some(m.map_err(|e| format!("VVAR map: {e}"))?),
+            None => None,
+        },
+        None => None,
+    };
+    out.insert(
+        "hvar".into(),
+        json!({"present": hvar.is_some(), "indirect": hmap.is_some(),
+               "items": hstore.as_ref().map(|s| s.item_variation_data().iter().flatten().flatten()
+                    .map(|d| d.item_count() as u32).collect::<Vec<_>>())}),
+    );
+    out.insert(
+        "vvar".into(),
+        json!({"present": vvar.is_some(), "indirect": vmap.is_some(), "vmtx": vmtx.is_some()}),
+    );
+
+    let mut gl = Vec::new();
+    for gid in gids {
+        let name = &names[gid as usize];
+        let mut g = Map::new();
+        g.insert("name".into(), json!(name));
+        g.insert("gid".into(), json!(gid));
+        // raw glyf entry
+        let mut npts: usize = 0;
+        let mut comps: Vec<(u32, i32, i32)> = Vec::new();
+        let mut kind = "none";
+        if let (Some(loca), Some(glyf)) = (&loca, &glyf) {
+            match loca.get_glyf(GlyphId::new(gid), glyf) {
+                Ok(None) => kind = "empty",
+                Ok(Some(Glyph::Simple(s))) => {
+                    kind = "simple";
+                    npts = s.num_points();
+                    let pts: Vec<Value> = s.points().map(|p| json!([p.x, p.y, p.on_curve as u8])).collect();
+                    let ends: Vec<u16> = s.end_pts_of_contours().iter().map(|e| e.get()).collect();
+                    g.insert("points".into(), json!(pts));
+                    g.insert("ends".into(), json!(ends));
+                }
+                Ok(Some(Glyph::Composite(c))) => {
+                    kind = "composite";
+                    let mut cj = Vec::new();
+                    for k in c.components() {
+                        let (dx, dy, by_point) = match k.anchor {
+                            Anchor::Offset { x, y } => (x as i32, y as i32, false),
+                            Anchor::Point { base, component } => (base as i32, component as i32, true),
+                        };
+                        comps.push((k.glyph.to_u16() as u32, dx, dy));
+                        let ident = k.transform.xx.to_f32() == 1.0
+                            && k.transform.yy.to_f32() == 1.0
+                            && k.transform.xy.to_f32() == 0.0
+                            && k.transform.yx.to_f32() == 0.0;
+                        cj.push(json!({"gid": k.glyph.to_u16(), "base": names.get(k.glyph.to_u16() as usize),
+                            "dx": dx, "dy": dy, "by_point": by_point, "flags": k.flags.bits(), "identity": ident}));
+                    }
+                    npts = comps.len();
+                    g.insert("components".into(), json!(cj));
+                }
+                Err(e) => return Err(format!("glyf entry of {name}: {e}")),
+            }
+        }
+        g.insert("kind".into(), json!(kind));
+        let tuples = gvar_tuples(&font, gid, naxes)?;
+        if want("outline") || want("advance") {
+            let tj: Vec<Value> = tuples
+                .iter()
+                .map(|t| json!({"tents": t.tents, "dense": t.dense, "explicit": t.deltas.len()}))
+                .collect();
+            g.insert("tuples".into(), json!(tj));
+        }
+        let hadv = hmtx.as_ref().and_then(|h| h.advance(GlyphId::new(gid)));
+        let vadv = vmtx.as_ref().and_then(|h| h.advance(GlyphId::new(gid)));
+        g.insert("hmtx".into(), json!(hadv));
+        g.insert("vmtx".into(), json!(vadv));
+        let hidx = map_index(&hmap, gid)?;
+        let vidx = map_index(&vmap, gid)?;
+        let li: Vec<usize> = match req.glyph_locs.get(name) {
+            Some(v) => v.clone(),
+            None => (0..locs.len()).collect(),
+        };
+        let mut at = Vec::new();
+        for l in li {
+            let Some(coords) = locs.get(l) else {
+                return Err(format!("location index {l} out of range"));
+            };
+            let mut a = Map::new();
+            a.insert("loc".into(), json!(l));
+            if want("outline") || want("advance") {
+                // drawing also yields the advance width the scaler derives from the phantom points
+                let mut pen = CmdPen {
+                    sc: &sc,
+                    cmds: Vec::new(),
+                };
+                match font.outline_glyphs().get(GlyphId::new(gid)) {
+                    Some(og) => {
+                        let settings = DrawSettings::unhinted(Size::unscaled(), LocationRef::new(&f2[l]))
+                            .with_path_style(PathStyle::HarfBuzz);
+                        match og.draw(settings, &mut pen) {
+                            Ok(m) => {
+                                a.insert("cmds".into(), Value::Array(pen.cmds));
+                                a.insert(
+                                    "padv".into(),
+                                    m.advance_width.map(|w| sc.iv(w as f64)).unwrap_or(Value::Null),
+                                );
+                            }
+                            Err(e) => {
+                                a.insert("draw_error".into(), json!(e.to_string()));
+                            }
+                        }
+                    }
+                    None => {
+                        a.insert("draw_error".into(), json!("no outline entry"));
+                    }
+                }
+                // own gvar evaluation: component offsets and phantom points
+                let offs: Vec<Value> = comps
+                    .iter()
+                    .enumerate()
+                    .map(|(i, (_, dx, dy))| {
+                        let (x, y) = gvar_point_delta(&tuples, i as u16, coords);
+                        let (lx, ly) = (sc.iv(*dx as f64 + x), sc.iv(*dy as f64 + y));
+                        json!([lx[0], lx[1], ly[0], ly[1]])
+                    })
+                    .collect();
+                a.insert("offsets".into(), json!(offs));
+                let ph: Vec<(f64, f64)> = (0..4)
+                    .map(|k| gvar_point_delta(&tuples, (npts + k) as u16, coords))
+                    .collect();
+                // horizontal advance from the phantom points = hmtx advance + (right.x - left.x) deltas
+                if let Some(h) = hadv {
+                    a.insert("gadv".into(), sc.iv(h as f64 + ph[1].0 - ph[0].0));
+                }
+                // vertical advance = vmtx advance + (top.y - bottom.y) deltas
+                if let Some(v) = vadv {
+                    a.insert("gvadv".into(), sc.iv(v as f64 + ph[2].1 - ph[3].1));
+                }
+                a.insert(
+                    "phantom_deltas".into(),
+                    json!(ph.iter().map(|(x, y)| json!([sc.iv(*x), sc.iv(*y)])).collect::<Vec<_>>()),
+                );
+            }
+            if want("advance") {
+                if let (Some(h), Some(store)) = (hadv, &hstore) {
+                    let d = ivs_delta(store, hidx.0, hidx.1, coords)?;
+                    a.insert("hadv".into(), sc.iv(h as f64 + d));
+                }
+                let gm = font.glyph_metrics(Size::unscaled(), LocationRef::new(&f2[l]));
+                a.insert(
+                    "hadv_skrifa".into(),
+                    gm.advance_width(GlyphId::new(gid))
+                        .map(|w| sc.iv(w as f64))
+                        .unwrap_or(Value::Null),
+                );
+                if let (Some(v), Some(store)) = (vadv, &vstore) {
+                    let d = ivs_delta(store, vidx.0, vidx.1, coords)?;
+                    a.insert("vadv".into(), sc.iv(v as f64 + d));
+                }
+            }
+            at.push(Value::Object(a));
+        }
+        g.insert("at".into(), json!(at));
+        gl.push(Value::Object(g));
+    }
+    out.insert("glyphs".into(), json!(gl));
+
+    if want("mvar") {
+        let defaults = mvar_defaults(&font);
+        let mvar = font.mvar().ok();
+        let mut recs: HashMap<String, (u16, u16)> = HashMap::new();
+        let mut rec_tags = Vec::new();
+        let mstore = match &mvar {
+            Some(m) => match m.item_variation_store() {
+                Some(s) => Some(s.map_err(|e| format!("MVAR store: {e}"))?),
+                None => None,
+            },
+            None => None,
+        };
+        if let Some(m) = &mvar {
+            for r in m.value_records() {
+                let t = r.value_tag().to_string();
+                rec_tags.push(t.clone());
+                recs.insert(t, (r.delta_set_outer_index(), r.delta_set_inner_index()));
+            }
+        }
+        let mut per_loc = Vec::new();
+        for (l, coords) in locs.iter().enumerate() {
+            let mut vals = Map::new();
+            for (tag, dflt) in &defaults {
+                let Some(d) = dflt else { continue };
+                let delta = match (recs.get(*tag), &mstore) {
+                    (Some((o, i)), Some(store)) => ivs_delta(store, *o, *i, coords)?,
+                    _ => 0.0,
+                };
+                vals.insert((*tag).into(), sc.iv(d + delta));
+            }
+            // second evaluator: skrifa's font-wide metrics (covers a subset of the tags)
+            let m = font.metrics(Size::unscaled(), LocationRef::new(&f2[l]));
+            let mut sk = Map::new();
+            if let Some(v) = m.x_height {
+                sk.insert("xhgt".into(), sc.iv(v as f64));
+            }
+            if let Some(v) = m.cap_height {
+                sk.insert("cpht".into(), sc.iv(v as f64));
+            }
+            if let Some(d) = m.underline {
+                sk.insert("undo".into(), sc.iv(d.offset as f64));
+                sk.insert("unds".into(), sc.iv(d.thickness as f64));
+            }
+            if let Some(d) = m.strikeout {
+                sk.insert("stro".into(), sc.iv(d.offset as f64));
+                sk.insert("strs".into(), sc.iv(d.thickness as f64));
+            }
+            sk.insert("ascent".into(), sc.iv(m.ascent as f64));
+            sk.insert("descent".into(), sc.iv(m.descent as f64));
+            sk.insert("leading".into(), sc.iv(m.leading as f64));
+            per_loc.push(json!({"loc": l, "vals": vals, "skrifa": sk}));
+        }
+        out.insert(
+            "mvar".into(),
+            json!({"present": mvar.is_some(), "tags": rec_tags, "at": per_loc}),
+        );
+        // also: is there a record for a tag we have no default table for?
+        let unknown: Vec<String> = recs
+            .keys()
+            .filter(|t| !defaults.iter().any(|(d, v)| d == t && v.is_some()))
+            .cloned()
+            .collect();
+        out.insert("mvar_unknown_tags".into(), json!(unknown));
+        let _ = Tag::new(b"MVAR");
+    }
+    if want("defaults") {
+        let mut d = Map::new();
+        for (tag, v) in mvar_defaults(&font) {
+            if let Some(v) = v {
+                d.insert(tag.into(), json!(v as i64));
+            }
+        }
+        if let Ok(h) = font.hhea() {
+            d.insert("hhea.ascender".into(), json!(h.ascender().to_i16()));
+            d.insert("hhea.descender".into(), json!(h.descender().to_i16()));
+            d.insert("hhea.lineGap".into(), json!(h.line_gap().to_i16()));
+        }
+        out.insert("defaults".into(), Value::Object(d));
+    }
+    Ok(Value::Object(out))
+}
+
+fn handle(line: &str) -> Value {
+    let req: Req = match serde_json::from_str(line) {
+        Ok(r) => r,
+        Err(e) => return json!({"ok": false, "error": format!("bad request: {e}")}),
+    };
+    let tag = req.tag.clone();
+    match std::panic::catch_unwind(std::panic::AssertUnwindSafe(|| measure(&req))) {
+        Ok(Ok(v)) => v,
+        Ok(Err(e)) => json!({"tag": tag, "ok": false, "error": e}),
+        Err(p) => json!({"tag": tag, "ok": false, "error": format!("panic: {}", crate::compile::panic_message(p))}),
+    }
+}
+
+pub fn run(args: &[String]) -> i32 {
+    if std::env::var("VH_PANIC_VERBOSE").is_err() {
+        std::panic::set_hook(Box::new(|_| {}));
+    }
+    let reader: Box<dyn BufRead> = match args.first() {
+        Some(p) => match std::fs::File::open(p) {
+            Ok(f) => Box::new(std::io::BufReader::new(f)),
+            Err(e) => {
+                eprintln!("cannot open {p}: {e}");
+                return 2;
+            }
+        },
+        None => Box::new(std::io::BufReader::new(std::io::stdin())),
+    };
+    let stdout = std::io::stdout();
+    for line in reader.lines() {
+        let Ok(line) = line else { break };
+        if line.trim().is_empty() {
+            continue;
+        }
+        let v = handle(&line);
+        let mut o = stdout.lock();
+        let _ = writeln!(o, "{v}");
+        let _ = o.flush();
+    }
+    0
 }
